@@ -457,6 +457,7 @@ type explorer struct {
 	heapMax     int
 	cpuMs       int64
 	ineffective int
+	transient   []string
 	horizon     time.Duration
 }
 
@@ -613,7 +614,10 @@ func (e *explorer) classify() {
 		var got Out
 		var st, se string
 		reproduced := 0
-		const reruns = 3
+		reruns := 3
+		if m.Status != "ok" {
+			reruns = 5 // a crash / hang is re-run 5x alone before it is believed
+		}
 		for i := 0; i < reruns; i++ {
 			o, s2, se2 := e.one(s.K, e.job(s, true))
 			if i == 0 {
@@ -633,6 +637,13 @@ func (e *explorer) classify() {
 		}
 		if bst != "ok" || !b2.D.same(base.D) {
 			e.r.Report("unowned|"+corpus[s.Prog].Name, fmt.Sprintf("program %s: the baseline schedule (all sites at r=0, hash constant fixed) does not reproduce its own output: a source of nondeterminism outside map iteration start / hash seeds (e.g. address-dependent order)", corpus[s.Prog].Name), replay)
+			continue
+		}
+		if reproduced == 0 && m.Status != "ok" {
+			// a worker that died / timed out once and never again: machine trouble, not evidence
+			e.transient = append(e.transient, fmt.Sprintf("%s: worker %s once under [%s], 0/%d on re-run", corpus[s.Prog].Name, m.Status, strings.Join(locs, "; "), reruns))
+			e.r.Cap("unreproduced worker failure")
+			done[name] = false
 			continue
 		}
 		if reproduced == 0 {
@@ -684,7 +695,26 @@ var (
 	rBound2         = []uint64{1, 1027}
 )
 
+// restrictCorpus is a developer knob (mutant runs on a loaded machine): VERIF_C27_ONLY=name,name
+// keeps only those corpus programs, in the explorer and (inherited environment) in its workers.
+// The run is then marked capped (exhaustive=false).
+func restrictCorpus() string {
+	only := os.Getenv("VERIF_C27_ONLY")
+	if only == "" {
+		return ""
+	}
+	var keep []corpusProg
+	for _, p := range corpus {
+		if strings.Contains(","+only+",", ","+p.Name+",") {
+			keep = append(keep, p)
+		}
+	}
+	corpus = keep
+	return only
+}
+
 func main() {
+	only := restrictCorpus()
 	if mc.IsWorker() {
 		mc.WorkerMain(handleJob)
 		return
@@ -710,15 +740,7 @@ func main() {
 	r.Assume("explored orders are those the real go1.23 runtime can realise (rotations of the bucket walk: start bucket r&mask, in-bucket offset (r>>B)&7), not arbitrary permutations; for maps of <= 8 elements r in 1..7 is every realisable order")
 	r.Assume("hash of pointer-typed keys depends on heap addresses, which the control does not pin (workers run with GOMAXPROCS=1 to keep them stable); any output difference is still a violation of the statement")
 
-	// developer knob (mutant runs on a loaded machine): restrict the corpus; the run is then marked capped
-	if only := os.Getenv("VERIF_C27_ONLY"); only != "" {
-		var keep []corpusProg
-		for _, p := range corpus {
-			if strings.Contains(","+only+",", ","+p.Name+",") {
-				keep = append(keep, p)
-			}
-		}
-		corpus = keep
+	if only != "" {
 		r.Cap("VERIF_C27_ONLY=" + only)
 	}
 	e := &explorer{r: r, pools: map[int]*mc.Pool{}, horizon: 15 * time.Minute}
@@ -1026,6 +1048,9 @@ func main() {
 	r.Extra("schedules_without_effective_deviation", e.ineffective)
 
 	e.classify()
+	if len(e.transient) > 0 {
+		r.Extra("unreproduced_worker_failures", e.transient)
+	}
 	r.Sample(map[string]interface{}{"program": corpus[0].Name, "baseline": e.base[0].D, "sites": len(e.sites[0])})
 	if len(e.sites[0]) > 0 {
 		s := e.sites[0][0]
